@@ -12,22 +12,25 @@ Definition str := list byte.
 (* ---- values: the fields of value.Integer / Float / String / Boolean / RTime that the
    modelled code reads or writes.  INTEGER and RTIME (nanoseconds) are signed 64-bit
    numbers, FLOAT is its IEEE-754 bit pattern (0 <= bits < 2^64). *)
-Inductive ty := TInt | TFloat | TStr | TBool | TRTime.
+(* TOpaque k: a type whose values the model only COPIES and never inspects: k = 0 TIME, 1 IP, 2 BACKEND, 3 ACL *)
+Inductive ty := TInt | TFloat | TStr | TBool | TRTime | TOpaque (k : N).
 
 Inductive val :=
 | VInt (z : Z) (lit : bool)
 | VFloat (bits : Z) (lit : bool)
 | VStr (s : str) (notset lit : bool)
 | VBool (b lit : bool)
-| VRTime (ns : Z) (lit : bool).
+| VRTime (ns : Z) (lit : bool)
+| VOpaque (k : N) (payload : str).     (* payload: what the value prints as; carried along, never looked into *)
 
 Definition type_of (v : val) : ty :=
   match v with VInt _ _ => TInt | VFloat _ _ => TFloat | VStr _ _ _ => TStr
-             | VBool _ _ => TBool | VRTime _ _ => TRTime end.
+             | VBool _ _ => TBool | VRTime _ _ => TRTime | VOpaque k _ => TOpaque k end.
 Definition is_lit (v : val) : bool :=
-  match v with VInt _ l | VFloat _ l | VStr _ _ l | VBool _ l | VRTime _ l => l end.
+  match v with VInt _ l | VFloat _ l | VStr _ _ l | VBool _ l | VRTime _ l => l | VOpaque _ _ => false end.
 Definition ty_eqb (a b : ty) : bool :=
   match a, b with TInt, TInt | TFloat, TFloat | TStr, TStr | TBool, TBool | TRTime, TRTime => true
+                | TOpaque j, TOpaque k => N.eqb j k
                 | _, _ => false end.
 
 (* value.Create *)
@@ -35,6 +38,7 @@ Definition default_val (t : ty) : val :=
   match t with
   | TInt => VInt 0 false | TFloat => VFloat 0 false | TStr => VStr [] true false
   | TBool => VBool false false | TRTime => VRTime 0 false
+  | TOpaque k => VOpaque k []
   end.
 
 Definition wrap64 (z : Z) : Z := ((z + 2 ^ 63) mod 2 ^ 64 - 2 ^ 63)%Z.
